@@ -934,8 +934,10 @@ func (ru *runner) runGroup(conf srvConf, plans []plan, rng *hlib.Rng) ([]c20case
 			timeout = 250 * time.Millisecond // a response is never answered
 		}
 		ex := exchange(p.proto, p.ip, ch.port, p.wire, timeout)
-		if !ex.reply.Got && timeout > time.Second && !ch.exited() && p.proto == "udp" {
-			ex = exchange(p.proto, p.ip, ch.port, p.wire, timeout) // lost datagram? once more
+		// a lost datagram, or a TCP read deadline (2 s) missed by a starved server
+		// process on a loaded machine: ask again (a dead server is noticed below)
+		for try := 0; try < 2 && !ex.reply.Got && timeout > time.Second && !ch.exited(); try++ {
+			ex = exchange(p.proto, p.ip, ch.port, p.wire, timeout)
 		}
 		c.Reply, c.Source, c.Dest = ex.reply, ex.local, ex.remote
 		if !c.ReqErr {
